@@ -1,0 +1,187 @@
+//go:build verif
+
+// Property C16, session back end of the token store (session_manager.go). Comment-only file.
+//
+// The CSRF token of a client lives in the client's SESSION (middleware/session) under the key sessionKey, as a boxed
+// Token{Key, Raw, Expiration}. There is no ghost token set for this back end: "token k is live for request c"
+// (sessLive) is DEFINED over the model of the session package (C15):
+//   - request managed by the session middleware (a *session.Middleware is registered on the context): the entry
+//     sessionKey of the data map of the middleware's Session - the object every reader of this request sees and that
+//     the session middleware persists after the handler (C15: NewWithStore$1, Store.Get refuses a second object);
+//   - otherwise: the entry sessionKey of what the session STORE holds (stHas/stVal of the store's fiber.Storage, decoded:
+//     decHas/decVal) under the id of the request's session, reqSid(store, c) - the request-id local if getSession set
+//     one, else the id the request presents. A Session object handed out by Store.Get is only a copy: a change of it
+//     counts when Session.Save has written it back.
+// The three methods of sessionManager are CHECKED against the contracts of the session package (no `defines`, no
+// `trusted` clause): the contracts of session.FromContext, (*Middleware).Get/Set/Delete, (*Store).Get,
+// (*Session).Get/Set/Delete/Save below are an EXPORT VIEW - they repeat, marked `assumed` because they are not checked
+// HERE, what is PROVED in middleware/session/zz_contracts*_verif.go (same labels; keep the two in step). The engine
+// loads, for a package, only its own contract files and /verif/contracts/deps.
+// The only addition of the view: the ghost counter sessErr, which counts the session operations that returned an
+// error in this activation (a record of the RESULT, like exTok/exOK for the extractor): the methods swallow these
+// errors (return silently / log), so what they guarantee is "... unless a session operation failed".
+
+package csrf
+
+//@ props C16
+
+// ---------------------------------------------------------------------------------------------
+// EXPORT VIEW of middleware/session: vocabulary (zz_contracts_verif.go, zz_contracts_locals_verif.go there)
+// ---------------------------------------------------------------------------------------------
+//@ ghost issued map[string]bool
+//@ ghost lockToken int
+//@ ghost sessErr int
+//@ fn decHas(b string, k int) bool
+//@ fn decVal(b string, k int) int
+//@ fn isAbsKeyType(x int) bool = typeis(x, session.absExpirationKeyType)
+//@ fn absKey() int
+//@ smt (assert (and (isAbsKeyType absKey) (= (unboxI absKey) 0)))
+//@ smt (assert (forall ((x Int)) (! (=> (and (isAbsKeyType x) (= (unboxI x) 0)) (= x absKey)) :pattern ((unboxI x)))))
+//@ fn isMwKeyType(x int) bool = typeis(x, session.middlewareKey)
+//@ fn mwKey() int
+//@ smt (assert (and (isMwKeyType mwKey) (= (unboxI mwKey) 0)))
+//@ smt (assert (forall ((x Int)) (! (=> (and (isMwKeyType x) (= (unboxI x) 0)) (= x mwKey)) :pattern ((unboxI x)))))
+//@ fn isSidKeyType(x int) bool = typeis(x, session.sessionIDKey)
+//@ fn sidKey() int
+//@ smt (assert (and (isSidKeyType sidKey) (= (unboxI sidKey) 0)))
+//@ smt (assert (forall ((x Int)) (! (=> (and (isSidKeyType x) (= (unboxI x) 0)) (= x sidKey)) :pattern ((unboxI x)))))
+//@ fn unboxStr(x int) string
+//@ smt (assert (forall ((x Int)) (! (= (unboxStr x) (unboxS x)) :pattern ((unboxStr x)))))
+
+//@ macro stOf(s) = s.config.Storage
+//@ macro unlocked(s) = !held(s.mu) && !held(s.data.RWMutex) && s.mu != s.data.RWMutex
+//@ macro wfStore(st) = st != nil && st.Storage != nil && st.KeyGenerator != nil && st.IdleTimeout > 0
+//@ macro wfSession(s) = s != nil && s.data != nil && s.data.Data != nil && wfStore(s.config) && s.id != "" && issued[s.id] && unlocked(s)
+//@ macro storedIssued(st) = forallS(k, stHas[st][k] ==> issued[k])
+//@ macro dataIs(s, b) = forallI(k, indom(s.data.Data, k) <==> decHas(b, k)) && forallI(k, decHas(b, k) ==> s.data.Data[k] == decVal(b, k))
+//@ macro seesStored(sess, b) = forallI(k, (k != absKey() || !sess.fresh) ==> (indom(sess.data.Data, k) <==> decHas(b, k)) && (decHas(b, k) ==> sess.data.Data[k] == decVal(b, k)))
+//@ fn errorsSetF() bool = session.ErrEmptySessionID != nil && session.ErrSessionAlreadyLoadedByMiddleware != nil && session.ErrSessionIDNotFoundInStore != nil
+//@ macro errorsSet() = errorsSetF()
+//@ macro mwLoaded(c) = locHas[c][mwKey()] && typeis(locVal[c][mwKey()], *session.Middleware)
+//@ macro mwOf(c) = as(locVal[c][mwKey()], *session.Middleware)
+//@ macro sidSet(c) = locHas[c][sidKey()]
+//@ macro sidStr(c) = unboxStr(locVal[c][sidKey()])
+//@ macro sidIsStr(c) = typeis(locVal[c][sidKey()], fiber.figletFiberText)
+// (spec constants: inside a method of sessionManager the bare name `session` denotes the receiver's field)
+//@ fn srcHeader() string = session.SourceHeader
+//@ fn srcQuery() string = session.SourceURLQuery
+//@ macro presented(s, c) = ite(reqCookie(c, s.sessionName, epoch) != "", reqCookie(c, s.sessionName, epoch), ite(s.source == srcHeader(), hdrPeek(reqJar(c), s.sessionName, epoch), ite(s.source == srcQuery(), reqQuery(c, s.sessionName, epoch), "")))
+//@ macro reqSid(s, c) = ite(sidSet(c) && sidIsStr(c), sidStr(c), presented(s, c))
+//@ macro localsKeptBut(c, key) = forallI(o, forallI(k, o != c || k != key ==> locHas[o][k] == old(locHas[o][k]) && locVal[o][k] == old(locVal[o][k])))
+
+// ---------------------------------------------------------------------------------------------
+// EXPORT VIEW of middleware/session: functions
+// ---------------------------------------------------------------------------------------------
+//@ func @session.FromContext(c) assumed pure
+//@   ensures registered-middleware: mwLoaded(c) ==> result == mwOf(c)
+//@   ensures none: !mwLoaded(c) ==> result == nil
+
+// Handler-side API of the middleware-owned session (the lock invariant of m.mu - the middleware owns a well-formed
+// session - is the session package's business).
+//@ func @session.(*Middleware).Get(m, key) assumed
+//@   requires unlocked: !held(m.mu)
+//@   modifies lockToken
+//@   ensures stored-value: indom(m.Session.data.Data, key) ==> result == m.Session.data.Data[key]
+//@   ensures absent-nil: !indom(m.Session.data.Data, key) ==> result == nil
+//@ func @session.(*Middleware).Set(m, key, value) assumed
+//@   requires unlocked: !held(m.mu)
+//@   modifies lockToken, heap(MD_any_any), heap(MV_any_any)
+//@   ensures set: indom(m.Session.data.Data, key) && m.Session.data.Data[key] == value
+//@   ensures others-kept: forallI(k, k != key ==> (indom(m.Session.data.Data, k) <==> old(indom(m.Session.data.Data, k))) && m.Session.data.Data[k] == old(m.Session.data.Data[k]))
+//@ func @session.(*Middleware).Delete(m, key) assumed
+//@   requires unlocked: !held(m.mu)
+//@   modifies lockToken, heap(MD_any_any)
+//@   ensures deleted: !indom(m.Session.data.Data, key)
+//@   ensures others-kept: forallI(k, k != key ==> (indom(m.Session.data.Data, k) <==> old(indom(m.Session.data.Data, k))) && m.Session.data.Data[k] == old(m.Session.data.Data[k]))
+
+// Store.Get (the clauses of the session package that this package needs; the last one is the sessErr record).
+//@ func @session.(*Store).Get(s, c) assumed
+//@   requires store-wf: wfStore(s)
+//@   requires package-errors-initialised: errorsSet()
+//@   requires stored-only-issued: storedIssued(s.Storage)
+//@   modifies Session.ctx, Session.config, Session.id, Session.fresh, Session.idleTimeout, Session.data, data.Data, heap(MD_any_any), heap(MV_any_any), stHas, locHas, locVal, bufStr, gobIn, issued, rqHdrHas, hdrCnt, rhLine, jarHas, jarVal, jarAttr, ckKey, ckVal, ckAttr, jcPath, jcExp, jcPooled, lockToken, sessErr
+//@   ensures never-adopts-unissued-id: result1 == nil ==> result0 != nil && result0.id != "" && issued[result0.id]
+//@   ensures existing-id-only-if-stored: result1 == nil && old(issued)[result0.id] ==> old(stHas)[s.Storage][result0.id]
+//@   ensures existing-id-sees-stored-data: result1 == nil && old(issued)[result0.id] ==> seesStored(result0, old(stVal)[s.Storage][result0.id])
+//@   ensures new-id-is-fresh-and-empty: result1 == nil && !old(issued)[result0.id] ==> result0.fresh && forallI(k, k != absKey() ==> !indom(result0.data.Data, k))
+//@   ensures store-only-shrinks: forallS(k, stHas[s.Storage][k] ==> old(stHas[s.Storage][k])) && stVal == old(stVal)
+//@   ensures other-stores-only-shrink: forallI(o, o != s.Storage ==> forallS(k, stHas[o][k] ==> old(stHas[o][k])))
+//@   ensures stored-only-issued: storedIssued(s.Storage)
+//@   ensures wf: result1 == nil ==> wfSession(result0) && result0.config == s && result0.ctx == c
+//@   ensures error-no-session: result1 != nil ==> result0 == nil
+//@   ensures refused-inside-middleware: old(mwLoaded(c)) ==> result0 == nil && result1 != nil && stHas == old(stHas) && issued == old(issued) && locHas == old(locHas) && locVal == old(locVal)
+//@   ensures locals-kept-but-the-request-id: localsKeptBut(c, sidKey())
+//@   ensures existing-id-is-the-requests: result1 == nil && old(issued)[result0.id] ==> result0.id == old(reqSid(s, c)) && stHas[s.Storage][result0.id]
+//@   ensures request-id-changes-only-to-the-new-id: sidSet(c) != old(sidSet(c)) || locVal[c][sidKey()] != old(locVal[c][sidKey()]) ==> result1 == nil && sidSet(c) && sidStr(c) == result0.id && !old(issued)[result0.id]
+//@   ensures new-id-recorded-as-string: result1 == nil && !old(issued)[result0.id] && sidSet(c) && sidStr(c) == result0.id && (!old(sidSet(c)) || locVal[c][sidKey()] != old(locVal[c][sidKey()])) ==> sidIsStr(c)
+//@   ensures unrecorded-new-id-replaces-the-requests: result1 == nil && !old(issued)[result0.id] && !(sidSet(c) && sidIsStr(c) && sidStr(c) == result0.id) ==> !stHas[s.Storage][old(reqSid(s, c))] && old(stHas)[s.Storage][old(reqSid(s, c))]
+//@   ensures fault-recorded: sessErr == old(sessErr) + ite(result1 != nil, 1, 0)
+
+// Handler-side access to the data of one Session object.
+//@ func @session.(*Session).Get(s, key) assumed pure
+//@   requires unlocked: s.data == nil || !held(s.data.RWMutex)
+//@   ensures stored-value: s.data != nil && indom(s.data.Data, key) ==> result == s.data.Data[key]
+//@   ensures absent-nil: s.data == nil || !indom(s.data.Data, key) ==> result == nil
+//@ func @session.(*Session).Set(s, key, val) assumed
+//@   requires unlocked: s.data == nil || (!held(s.data.RWMutex) && s.data.Data != nil)
+//@   modifies heap(MD_any_any), heap(MV_any_any), lockToken
+//@   ensures set: s.data != nil ==> indom(s.data.Data, key) && s.data.Data[key] == val
+//@   ensures others-kept: s.data != nil ==> forallI(k, k != key ==> (indom(s.data.Data, k) <==> old(indom(s.data.Data, k))) && s.data.Data[k] == old(s.data.Data[k]))
+//@ func @session.(*Session).Delete(s, key) assumed
+//@   requires unlocked: s.data == nil || !held(s.data.RWMutex)
+//@   modifies heap(MD_any_any), lockToken
+//@   ensures deleted: s.data != nil ==> !indom(s.data.Data, key)
+//@   ensures others-kept: s.data != nil ==> forallI(k, k != key ==> (indom(s.data.Data, k) <==> old(indom(s.data.Data, k))) && s.data.Data[k] == old(s.data.Data[k]))
+
+// Save persists unless the session is owned by the middleware of its context.
+//@ func @session.(*Session).Save(s) assumed
+//@   requires unlocked: !held(s.mu)
+//@   requires wf: s.data == nil || wfSession(s)
+//@   requires stored-only-issued: s.data == nil || storedIssued(stOf(s))
+//@   modifies s.idleTimeout, stHas, stVal, bufStr, gobOut, rqHdrHas, rqHdrVal, outHdr, outHdrSet, jarHas, jarVal, jarAttr, ckKey, ckVal, ckAttr, jcPath, jcExp, jcPooled, lockToken, sessErr
+//@   ensures persisted-or-untouched: result == nil && s.data != nil ==> (stHas[stOf(s)][s.id] && dataIs(s, stVal[stOf(s)][s.id])) || (stHas == old(stHas) && stVal == old(stVal))
+//@   ensures failed-keeps-store: result != nil ==> stHas == old(stHas) && stVal == old(stVal)
+//@   ensures others-untouched: forallS(k, k != s.id ==> stHas[stOf(s)][k] == old(stHas[stOf(s)][k]) && stVal[stOf(s)][k] == old(stVal[stOf(s)][k])) && forallI(o, o != stOf(s) ==> stHas[o] == old(stHas[o]) && stVal[o] == old(stVal[o]))
+//@   ensures stored-only-issued: s.data != nil ==> storedIssued(stOf(s))
+//@   ensures wf-kept: s.data != nil ==> wfSession(s)
+//@   ensures otherwise-persists: !(s.ctx != nil && mwLoaded(s.ctx) && mwOf(s.ctx).Session == s) && result == nil && s.data != nil ==> stHas[stOf(s)][s.id] && dataIs(s, stVal[stOf(s)][s.id])
+//@   ensures fault-recorded: sessErr == old(sessErr) + ite(result != nil, 1, 0)
+
+// RegisterType only talks to encoding/gob (deps/mw_C15.spec).
+//@ func @session.(*Store).RegisterType(s, i) assumed
+//@   modifies gobReg
+//@   ensures registered: gobReg[tagof(i)]
+//@   ensures registry-only-grows: forallI(t, old(gobReg)[t] ==> gobReg[t])
+
+// ---------------------------------------------------------------------------------------------
+// The token store of the session back end
+// ---------------------------------------------------------------------------------------------
+// The key of the CSRF entry: the boxed constant sessionKey. A boxed value of that (unexported, int-based) type is
+// determined by its payload.
+//@ fn isCsrfKeyType(x int) bool = typeis(x, sessionKeyType)
+//@ fn csrfKey() int
+//@ smt (assert (and (isCsrfKeyType csrfKey) (= (unboxI csrfKey) 0)))
+//@ smt (assert (forall ((x Int)) (! (=> (and (isCsrfKeyType x) (= (unboxI x) 0)) (= x csrfKey)) :pattern ((unboxI x)))))
+
+// isTok(v, k): v is a boxed Token for token k. tokExp(v): the instant its Expiration denotes.
+//@ macro isTok(v, k) = typeis(v, Token) && as(v, Token).Key == k
+//@ macro tokExp(v) = tInst(as(v, Token).Expiration)
+// The CSRF entry of the session of request c: in the middleware-owned Session / in the store under id.
+//@ macro mwHas(c) = indom(mwOf(c).Session.data.Data, csrfKey())
+//@ macro mwEntry(c) = mwOf(c).Session.data.Data[csrfKey()]
+//@ macro stHasE(S, id) = stHas[S.Storage][id] && decHas(stVal[S.Storage][id], csrfKey())
+//@ macro stEntry(S, id) = decVal(stVal[S.Storage][id], csrfKey())
+//@ macro sessLive(S, c, k) = ite(mwLoaded(c), mwHas(c) && isTok(mwEntry(c), k), stHasE(S, reqSid(S, c)) && isTok(stEntry(S, reqSid(S, c)), k))
+//@ macro sessExp(S, c) = ite(mwLoaded(c), tokExp(mwEntry(c)), tokExp(stEntry(S, reqSid(S, c))))
+// setRaw on a session that had passed its absolute deadline: Store.Get resets it (C15: the request's id is removed from
+// the store, the Session gets a newly issued id, which Save announces to the client) - the token is then stored under
+// that new id, not under the id of this request.
+//@ macro sessionReplaced(S, c, k) = !mwLoaded(c) && !stHas[S.Storage][reqSid(S, c)] && old(stHas[S.Storage][reqSid(S, c)]) && existsS(n, !old(issued)[n] && stHasE(S, n) && isTok(stEntry(S, n), k))
+// what the three methods need of the configured session store, and leave behind
+//@ macro sessWf(S) = S != nil && wfStore(S) && errorsSet() && storedIssued(S.Storage)
+
+//@ func newSessionManager
+//@   modifies gobReg
+//@   ensures wired: result != nil && result.session == s
+//@   ensures token-types-registered: s != nil ==> forallI(x, typeis(x, Token) || typeis(x, sessionKeyType) ==> gobReg[tagof(x)])
+//@   ensures registry-only-grows: forallI(t, old(gobReg)[t] ==> gobReg[t])
